@@ -1,5 +1,5 @@
 """C13 — builtin call and method optimisations preserve semantics (core of the IFACE family)."""
-from ..rules import handlers, typed, iface, trn, sC13
+from ..rules import handlers, typed, iface, trn, sC13, s7C13
 
 ID = 'C13'
 TECHNIQUE = ('resolved interface analysis: handler-name resolution against builtin tables, typed helper call vs C prototype (utility catalogue + CPython headers), '
@@ -10,7 +10,9 @@ TECHNIQUE = ('resolved interface analysis: handler-name resolution against built
              'tree-builder interpreter (rules/pC01.py TB): every method handler is run per number of arguments on symbolic nodes and the emitted C call (name, argument list, '
              'declared return type) is tabulated; reference tables from the library / C-API reference; '
              'LinSym (rules/sC13.py): symbolic execution of C helpers on integer linear forms with path conditions, infeasible paths pruned by Fourier-Motzkin elimination, '
-             'candidate and reference (CPython\'s algorithm in the same C subset) compared path pair by path pair; index-status path enumeration (engine of C15) for list.pop(i)')
+             'candidate and reference (CPython\'s algorithm in the same C subset) compared path pair by path pair; index-status path enumeration (engine of C15) for list.pop(i); '
+             'round 7 (rules/s7C13.py): decision trees of C macros (nested ?:) and functions (if / else / early return) with path conditions for identity shortcuts; the encode / decode '
+             'handlers run by the tree-builder interpreter on a complete abstract partition of (encoding, errors) and compared with the C-API reference')
 DECIDES = ('V1h: every _handle_* optimisation handler names an existing builtin function / method of a builtin type; '
            'I3: at every typed helper call site the number of arguments passed equals the C arity and the declared argument/return categories and exception value agree with the C prototype; '
            'I4: every BuiltinFunction/BuiltinMethod table row agrees with the C prototype of its C function; '
@@ -41,11 +43,15 @@ NOT_DECIDED = ('that each C helper agrees with the builtin it replaces on every 
                'as identity, covers the handlers the tree-builder interpreter can run (6 handler/arity combinations give up and are listed as info) and a frozen reference table '
                'for 13 methods; _handle_simple_function_* handlers that query the symbol table (isinstance, len of C types ...) are not run: brainstormed mutants isinstance-exact, '
                'isinstance-and (which type check / which boolean operator joins the per-type tests) and ord-length-guard (guard of a constant folding) are left unreported.  '
-               'SLICE / LISTPOP / TRISTATE decide the helpers named in their rule texts; CPython API functions called by them are trusted.  A Fourier-Motzkin "feasible" answer is '
+               'SLICE / LISTPOP / TRISTATE decide the helpers named in their rule texts; CPython API functions called by them are trusted.  CODEC trusts _find_special_codec_name (modelled as: the row of _special_encodings naming the same codec) and the C helpers __Pyx_decode_* (decode_func preferred over encoding); '
+               'IDENT covers helpers whose general path calls a C-API constructor of its reference table on the same operand.  A Fourier-Motzkin "feasible" answer is '
                'rational: a report is only made with an integer witness, a proof of agreement is exact.')
 ASSUMPTIONS = ['PyOS_string_to_double consumes exactly  [+-]? (D+ (. D*)? | . D+) ([eE] [+-]? D+)?  of an ASCII text without underscores (CPython pystrtod.c)',
                'float() of CPython accepts an underscore only between two digits (_Py_string_to_number_with_underscores)',
                'the callers of the copy loops reject a text whose first character after an optional sign is neither a digit nor `.` (the *_inf_nan pre-filters)']
+EXEMPT = {('C13-IDENT', '__Pyx_PyNumber_Long(x) -> PyNumber_Index/PyNumber_Long'):
+          'not a stand-in for int(): the helper is the integer coercion of %d formatting and of the C integer conversions, whose CPython references '
+          '(unicodeobject.c mainformatlong: `if (!PyLong_Check(v)) PyNumber_Long(v) else iobj = v`; PyLong_AsLong) pass an int subclass instance through unchanged'}
 MUTATIONS = [   # (file, single edit on a scratch copy, rule that reported it)
     ('Cython/Utility/Optimize.c', "seed C13b: bytes copy: is_punctuation without (chr == 'e') | (chr == 'E')", 'C13-USCORE'),
     ('Cython/Utility/Optimize.c', "bytes copy: is_punctuation without (chr == '.')", 'C13-USCORE'),
@@ -69,6 +75,9 @@ MUTATIONS = [   # (file, single edit on a scratch copy, rule that reported it)
     ('Cython/Utility/StringTools.c', "c-bytes-tailmatch-{clamp,endclamp,direction}, c-substring-{stop-clamp,start-noclamp}", 'C13-SLICE'),
     ('Cython/Utility/Optimize.c', "c-listpop-empty, c-listpop-item, c-popindex-shift-count, c-popindex-no-shrink", 'C13-LISTPOP'),
     ('Cython/Utility/Optimize.c', "c-setremove-error-as-missing", 'C13-TRISTATE'),
+    ('Cython/Utility/*.c, Optimize.py, ExprNodes.py', "round 7: seed C13i, ident-{tuple,int,str,abs}-check, ident-list-no-unique, ident-frozenset-anyset, ident-float-wrongtype / site-{list,merged}-no-temp, site-sorted-negated", 'C13-IDENT / C13-IDENT-SITE'),
+    ('Cython/Compiler/Optimize.py', "round 7: seed C13j, codec-encode-{guard-ignore,args-swapped,dash-guard,1arg-latin1}, codec-decode-{errors-null,wrong-codec}, codec-unpack-strict-inverted", 'C13-CODEC'),
+    ('behaviour-preserving (all silent)', "round 7: ok-ident-list-negated, ok-ident-frozenset-istype, ok-site-list-local, ok-codec-encode-nested, ok-codec-unpack-rewrite, ok-codec-decode-keep-encoding", 'silent'),
     ('not reported (declined)', "isinstance-exact, isinstance-and, ord-length-guard: see NOT_DECIDED", 'none'),
     ('behaviour-preserving (all silent)', "ok-anyall-rewrite, ok-popindex-rewrite (conditional expression, early-return fallback), ok-tailmatch-kwargs, ok-dictget-rewrite "
                                           "(else-if form), ok-len-table-order, ok-bytes-clamp-rewrite (nested ifs), ok-listpop-rewrite (size in a local), ok-setremove-rewrite "
@@ -84,4 +93,5 @@ def run(ctx):
     # sC13.rule_uscore(ctx, pending=True) checks the constructs of FINDING_1 (float("1e+_5"), the non-ASCII copy loop)     # pending finding
     return [handlers.rule_V1h(ctx), typed.rule_I3(ctx), typed.rule_I4(ctx), iface.rule_I5(ctx), iface.rule_I6(ctx),
             handlers.rule_arg_guards(ctx), trn.rule_TRN2(ctx), trn.rule_TRN2b(ctx),
-            sC13.rule_uscore(ctx), sC13.rule_uscore(ctx, pending=True), sC13.rule_nonearg(ctx), sC13.rule_popix(ctx), sC13.rule_minmax(ctx), sC13.rule_anyall(ctx), sC13.rule_htab(ctx), sC13.rule_tabname(ctx), sC13.rule_witherr(ctx), sC13.rule_slice(ctx), sC13.rule_listpop(ctx), sC13.rule_tristate(ctx)]
+            sC13.rule_uscore(ctx), sC13.rule_uscore(ctx, pending=True), sC13.rule_nonearg(ctx), sC13.rule_popix(ctx), sC13.rule_minmax(ctx), sC13.rule_anyall(ctx), sC13.rule_htab(ctx), sC13.rule_tabname(ctx), sC13.rule_witherr(ctx), sC13.rule_slice(ctx), sC13.rule_listpop(ctx), sC13.rule_tristate(ctx),
+            s7C13.rule_ident(ctx), s7C13.rule_ident_site(ctx), s7C13.rule_codec(ctx)]
